@@ -20,6 +20,8 @@ type Term struct {
 	Aux  string // operator, field name, callee name, type, extract index ...
 	Args []*Term
 	Fn   string          // enclosing function for call terms
+	Folded bool          // constant produced by folding integer operators
+	Int  int64
 	V    ssa.Value       // originating value (nil for synthesised)
 	In   ssa.Instruction // originating instruction for call/load terms
 }
@@ -38,6 +40,9 @@ func (t *Term) IsConst(val string) bool { return t != nil && t.Op == "const" && 
 func (t *Term) ConstInt() (int64, bool) {
 	if t == nil || t.Op != "const" {
 		return 0, false
+	}
+	if t.Folded {
+		return t.Int, true
 	}
 	c, ok := t.V.(*ssa.Const)
 	if !ok || c.Value == nil || c.Value.Kind() != constant.Int {
@@ -170,4 +175,187 @@ func isIdentityConv(from, to types.Type) bool {
 		return ok && b.Kind() == types.Byte
 	}
 	return (isStr(fu) && isBytes(tu)) || (isBytes(fu) && isStr(tu))
+}
+
+// Subst rebuilds t with parameter terms replaced (params: name -> term). Compositional operators are
+// rebuilt with fresh keys; instruction-identified terms of the source function (calls, allocs, …) are kept
+// and tagged with their function so they cannot collide with the target function's terms.
+func Subst(t *Term, params map[string]*Term, fromFn string) *Term {
+	if t == nil {
+		return nil
+	}
+	rec := func(i int) *Term { return Subst(t.Args[i], params, fromFn) }
+	switch t.Op {
+	case "param":
+		if params == nil {
+			return t
+		}
+		if r, ok := params[t.Aux]; ok && r != nil {
+			return r
+		}
+		return &Term{K: "⟦" + fromFn + "⟧" + t.K, Op: "foreign", Aux: t.Aux, V: t.V}
+	case "const", "global", "fn":
+		return t
+	case "fieldaddr":
+		a := rec(0)
+		return &Term{K: "&" + a.K + "." + t.Aux, Op: t.Op, Aux: t.Aux, Args: []*Term{a}, V: t.V}
+	case "field":
+		a := rec(0)
+		return &Term{K: a.K + "." + t.Aux, Op: t.Op, Aux: t.Aux, Args: []*Term{a}, V: t.V}
+	case "load":
+		a := rec(0)
+		suffix := ""
+		if i := strings.Index(t.K, ")#"); i >= 0 && strings.HasPrefix(t.K, "load(") {
+			suffix = t.K[i+1:]
+		}
+		return &Term{K: "load(" + a.K + ")" + suffix, Op: t.Op, Args: []*Term{a}, V: t.V, In: t.In}
+	case "conv", "numconv":
+		a := rec(0)
+		pre := "conv"
+		if t.Op == "numconv" {
+			pre = "numconv"
+		}
+		if strings.HasPrefix(t.K, "assert<") {
+			pre = "assert"
+		}
+		return &Term{K: pre + "<" + t.Aux + ">(" + a.K + ")", Op: t.Op, Aux: t.Aux, Args: []*Term{a}, V: t.V}
+	case "binop":
+		a, b := rec(0), rec(1)
+		return &Term{K: "(" + a.K + " " + t.Aux + " " + b.K + ")", Op: t.Op, Aux: t.Aux, Args: []*Term{a, b}, V: t.V}
+	case "unop":
+		a := rec(0)
+		return &Term{K: "(" + t.Aux + a.K + ")", Op: t.Op, Aux: t.Aux, Args: []*Term{a}, V: t.V}
+	case "indexaddr":
+		a, b := rec(0), rec(1)
+		return &Term{K: "&" + a.K + "[" + b.K + "]", Op: t.Op, Args: []*Term{a, b}, V: t.V}
+	case "index":
+		a, b := rec(0), rec(1)
+		return &Term{K: a.K + "[" + b.K + "]", Op: t.Op, Args: []*Term{a, b}, V: t.V}
+	case "extract":
+		a := rec(0)
+		return &Term{K: a.K + "#" + t.Aux, Op: t.Op, Aux: t.Aux, Args: []*Term{a}, V: t.V}
+	case "varargs":
+		var as []*Term
+		var ks []string
+		for i := range t.Args {
+			x := rec(i)
+			as = append(as, x)
+			ks = append(ks, x.K)
+		}
+		return &Term{K: "[" + strings.Join(ks, ", ") + "]", Op: t.Op, Args: as, V: t.V}
+	case "call":
+		var as []*Term
+		for i := range t.Args {
+			as = append(as, rec(i))
+		}
+		k := t.K
+		if !strings.HasPrefix(k, "⟦") {
+			k = "⟦" + fromFn + "⟧" + k
+		}
+		return &Term{K: k, Op: t.Op, Aux: t.Aux, Args: as, V: t.V, In: t.In, Fn: t.Fn}
+	case "slice":
+		var as []*Term
+		k := "slice("
+		for i := range t.Args {
+			x := rec(i)
+			as = append(as, x)
+			if i > 0 {
+				k += ","
+			}
+			if x == nil {
+				k += "_"
+			} else {
+				k += x.K
+			}
+		}
+		return &Term{K: k + ")", Op: t.Op, Args: as, V: t.V}
+	}
+	k := t.K
+	if !strings.HasPrefix(k, "⟦") {
+		k = "⟦" + fromFn + "⟧" + k
+	}
+	return &Term{K: k, Op: t.Op, Aux: t.Aux, Args: t.Args, V: t.V, In: t.In, Fn: t.Fn}
+}
+
+// ParamMap binds the parameters of callee (receiver first) to the argument terms of a call.
+func ParamMap(callee *ssa.Function, args []*Term) map[string]*Term {
+	m := map[string]*Term{}
+	for i, p := range callee.Params {
+		if i < len(args) {
+			m[p.Name()] = args[i]
+		}
+	}
+	return m
+}
+
+// Walk visits t and all sub-terms.
+func (t *Term) Walk(f func(*Term)) {
+	if t == nil {
+		return
+	}
+	f(t)
+	for _, a := range t.Args {
+		a.Walk(f)
+	}
+}
+
+// Contains reports whether some sub-term satisfies pred.
+func (t *Term) Contains(pred func(*Term) bool) bool {
+	found := false
+	t.Walk(func(x *Term) {
+		if pred(x) {
+			found = true
+		}
+	})
+	return found
+}
+
+// FieldLoad builds the term of loading field f through pointer term base (same key the path engine produces).
+func FieldLoad(base *Term, f string) *Term {
+	a := &Term{K: "&" + base.K + "." + f, Op: "fieldaddr", Aux: f, Args: []*Term{base}}
+	return &Term{K: "load(" + a.K + ")", Op: "load", Args: []*Term{a}}
+}
+
+// SubstFree rewrites a term of a closure body into the creating function's vocabulary: free variables are
+// replaced by their bindings and loads of the creator's local variables are resolved through snap (the
+// creator's memory when the closure runs).
+func SubstFree(t *Term, fv map[string]*Term, snap map[string]*Term, fromFn string) *Term {
+	if t == nil {
+		return nil
+	}
+	switch t.Op {
+	case "freevar":
+		if b, ok := fv[t.Aux]; ok {
+			return b
+		}
+		return t
+	case "load":
+		a := SubstFree(t.Args[0], fv, snap, fromFn)
+		if v, ok := snap[a.K]; ok {
+			return v
+		}
+		return &Term{K: "load(" + a.K + ")", Op: "load", Args: []*Term{a}, V: t.V, In: t.In}
+	}
+	if len(t.Args) == 0 {
+		if t.Op == "const" || t.Op == "global" || t.Op == "fn" {
+			return t
+		}
+		return &Term{K: "⟦" + fromFn + "⟧" + t.K, Op: t.Op, Aux: t.Aux, V: t.V, In: t.In}
+	}
+	// rebuild compositional operators through Subst's constructors by first substituting children
+	args := make([]*Term, len(t.Args))
+	for i, a := range t.Args {
+		args[i] = SubstFree(a, fv, snap, fromFn)
+	}
+	cp := *t
+	cp.Args = args
+	// recompute the key with an empty parameter map (children are already final)
+	return rekey(&cp, fromFn)
+}
+
+func rekey(t *Term, fromFn string) *Term {
+	var id map[string]*Term
+	// Subst recurses into Args; with children already substituted and no params bound this only rebuilds keys.
+	// Parameters of the closure itself (rare) become foreign terms.
+	return Subst(t, id, fromFn)
 }
